@@ -471,6 +471,9 @@ def build(repo=None):
                             eng.oblige(s2, "C15:nesting:at-most-one-multi-axis-dim-and-index_variadic-points-at-it(WellFormed-preserved)", z3.Not(isvar(dv.t[j])))
                             if new_iv is not None:
                                 eng.oblige(s1, "C15:nesting:index_variadic-points-at-a-multi-axis-dim", z3.And(0 <= new_iv, new_iv < n2 + n1, isvar(dv.t[new_iv])))
+                    for ob_ in st.obl:
+                        if "dtypes" in ob_["clause"] or "intersection" in ob_["clause"]:
+                            ob_["serves"] = ["C15", "C03"]  # which dtypes a nested annotation accepts is also a C03 matter
                     collect(st.obl, ["C15"])
 
     # ================================================================== _check_scalar
